@@ -5,7 +5,7 @@ import ast
 
 from ..cfg import CFG
 from ..core import AnalysisError, own_nodes, short, unparse
-from ..rules import isdrules
+from ..rules import shape, isdrules
 from . import common
 
 EXPLANATION = (
@@ -129,4 +129,7 @@ def run(ctx):
   check_display_prune(ctx, mk)
   check_children_order(ctx, mk)
   check_default_region(ctx)
+  # the content interval that lets from_model skip a single-region document is the hull of its content
+  shape.check_content_interval_hull(ctx)
+  shape.check_cache_keys(ctx, common.funcs(ctx, ["ttconv.isd"]))
   common.check_history_independence(ctx, common.CORE)
